@@ -424,9 +424,40 @@ func jsonKey(f reflect.StructField) (string, bool) {
 
 // genericType mirrors Model.ConfigCodec.expandTy: scalars, untyped holes (not RawMessage), generic v2 structs without
 // custom marshalers / embedded fields / external field types, slices, string-keyed maps, pointers to scalars or structs.
+// classified: custom pairs the extractor classifies from their method bodies (Gen/ConfigPairs.lean) and the model unfolds:
+// mirror / metadata wrappers go through their embedded (or private) config struct, boxed ones through their single field.
+// The driver answers `E` for a struct it cannot unfold, so a pair that is no longer recognised shows up as a broken tie.
+var classified = map[string]reflect.Type{
+	"CircuitBreakers":     reflect.TypeOf([]v2.Thresholds{}),
+	"ClusterWeight":       reflect.TypeOf(v2.ClusterWeightConfig{}),
+	"DelayInject":         reflect.TypeOf(v2.DelayInjectConfig{}),
+	"FaultInject":         reflect.TypeOf(v2.FaultInjectConfig{}),
+	"HealthCheck":         reflect.TypeOf(v2.HealthCheckConfig{}),
+	"HealthCheckFilter":   reflect.TypeOf(v2.HealthCheckFilterConfig{}),
+	"Host":                reflect.TypeOf(v2.HostConfig{}),
+	"KeepAlive":           reflect.TypeOf(v2.KeepAliveConfig{}),
+	"RetryPolicy":         reflect.TypeOf(v2.RetryPolicyConfig{}),
+	"RouteAction":         reflect.TypeOf(v2.RouterActionConfig{}),
+	"Router":              reflect.TypeOf(v2.RouterConfig{}),
+	"SecretConfigWrapper": reflect.TypeOf(v2.SecretConfigWrapperConfig{}),
+}
+
+// wireType: the type whose JSON form a value of t has
+func wireType(t reflect.Type) reflect.Type {
+	if t.PkgPath() == v2Pkg {
+		if w, ok := classified[t.Name()]; ok {
+			return w
+		}
+	}
+	return t
+}
+
 func genericType(t reflect.Type, depth int) bool {
 	if depth > 30 {
 		return false
+	}
+	if w := wireType(t); w != t {
+		return genericType(w, depth+1)
 	}
 	if isHole(t) || t == durCfg {
 		return true
@@ -516,7 +547,8 @@ type wgen struct {
 }
 
 func (g *wgen) word() string {
-	return g.r.PickS([]string{"a", "b", "srv", "x1", "", "v", "127.0.0.1:80", "Ab_c", "tcp"})
+	return g.r.PickS([]string{"a", "b", "srv", "x1", "", "v", "127.0.0.1:80", "Ab_c", "tcp",
+		"10.0.0.0/8", "0.0.0.0/0", "192.168.1.1/32", "::/0", "fe80::/10", "10.0.0.0/33", "a", "b", "srv"})
 }
 
 func caseVariant(r *hx.Rng, k string) string {
@@ -530,7 +562,8 @@ func caseVariant(r *hx.Rng, k string) string {
 }
 
 func (g *wgen) holeJSON() string {
-	return g.r.PickS([]string{`{}`, `null`, `{"k":1}`, `{"s":"x","n":{"a":[1,"b",true,null]}}`, `{"z":2,"a":{"b":{}}}`, `{"l":[]}`})
+	return g.r.PickS([]string{`{}`, `null`, `{"k":1}`, `{"s":"x","n":{"a":[1,"b",true,null]}}`, `{"z":2,"a":{"b":{}}}`, `{"l":[]}`,
+		`{"zone":"a","version":"1.0"}`, `{"zone":"a","n":1,"e":""}`})
 }
 
 func (g *wgen) wrongKind(t reflect.Type) string {
@@ -552,6 +585,7 @@ func (g *wgen) wrongKind(t reflect.Type) string {
 // value renders a JSON value for Go type t.
 func (g *wgen) value(t reflect.Type, depth int) string {
 	r := g.r
+	t = wireType(t)
 	if isHole(t) {
 		return g.holeJSON()
 	}
@@ -567,7 +601,9 @@ func (g *wgen) value(t reflect.Type, depth int) string {
 		}
 		return fmt.Sprintf("%q", g.durString())
 	case t.PkgPath() != "" && t.PkgPath() != v2Pkg && t.Kind() == reflect.Uint64:
-		return r.PickS([]string{"0", "1", "1024", "1536", `"1KB"`, `"10 MB"`, `"1.5MB"`, `"x"`, "1048576"})
+		return r.PickS([]string{"0", "1", "1024", "1536", `"1KB"`, `"10 MB"`, `"1.5MB"`, `"x"`, "1048576",
+			`"0"`, `"1B"`, `"1023B"`, `"1024B"`, `"1kb"`, `"1MB"`, `"1GB"`, `"1TB"`, `"1PB"`, `"15EB"`, `"16EB"`, `"1KB "`, `"1K"`, `"1048575"`,
+			"18446744073709551615", "18446744073709551616", `"18446744073709551615B"`, `"-1"`, `""`})
 	case t.PkgPath() != "" && t.PkgPath() != v2Pkg:
 		return "null"
 	}
@@ -617,6 +653,9 @@ func (g *wgen) value(t reflect.Type, depth int) string {
 
 func (g *wgen) object(t reflect.Type, depth int) string {
 	r := g.r
+	if w := wireType(t); w != t {
+		return g.value(w, depth)
+	}
 	var parts []string
 	dupAt := map[int]int{}
 	var fields []reflect.StructField
@@ -1250,4 +1289,7 @@ func Run(c *hx.Ctx) {
 	fixpoints(c, c.N(2500, 25000))
 	durs(c, c.N(1500, 20000))
 	gens(c, tmp, c.N(300, 5000))
+	pairs2(c, c.N(2500, 25000))
+	dynPairs(c, tmp, c.N(400, 6000))
+	dyns(c, tmp, c.N(240, 3000))
 }
